@@ -9,7 +9,7 @@ MInit == Init /\ n = 0
 MNext == n < MaxT /\ Tamper /\ n' = n + 1
 MSpec == MInit /\ [][MNext]_mvars
 \* library output is accepted exactly when it is fresh and has a non-negative TTL (ties to C26)
-FreshAccepted == \A k \in Keys, d \in Datas, v1, emb \in BOOLEAN : \A cls \in Classes :
+FreshAccepted == n = 0 => \A k \in Keys, d \in Datas, v1, emb \in BOOLEAN : \A cls \in Classes :
                     LET x == Fresh(k, d, v1, emb)
                         ok == ~Expired(d) /\ ~NegTTL(d) IN
                     /\ CodeValid(x, k, "key", cls) = ok /\ Valid(x, k, "key", cls) = ok
